@@ -15,7 +15,8 @@ PROP = dict(
          "third of them with an extra task blocked for ever on a never-written channel), half nested values of 12 types sent "
          "main->task or task->main with mutations on both sides after the hand-over, plus shared and cyclic payloads (one Box twice "
          "in an array, a struct containing itself, one array under two fields, the same array written twice = two independent "
-         "copies). spec_fail: per channel the hook's popped "
+         "copies; cycles rooted at an array - array->struct->array, array->variant->array, array->array->variant->array - and at "
+         "a variant; an empty array). Every program runs in a child process (a host abort is reported with its program). spec_fail: per channel the hook's popped "
          "(bits,tag) sequence is a prefix of the pushed sequence (order, once); output and final value equal those of a "
          "sequential oracle program without tasks/channels (producer/consumer) or the renderings computed in Rust (nested "
          "values: as written; receiver's mutations; sender's later mutations invisible). Model cases: one scheduler trace per "
